@@ -687,8 +687,14 @@ class G:
         src = self.leaf(tt) if r.random() < 0.5 else self.literal(tt)
         k, v, acc = self.fresh("p"), self.fresh("p"), self.fresh("p")
         K, V, A = ("sym", k), ("sym", v), ("sym", acc)
-        kind = r.randrange(9)
+        kind = r.randrange(10)
         self.use("tuple-op-%d" % kind)
+        if kind == 9:
+            # a callback over a tuple that does not return [name, value]: the map must fail, not drop the field
+            body = r.choice([V, K, ("list", [K]), ("list", [K, V, V]), ("list", [V, K]) if VT == "int" else ("list", [("int", 1), V]), ("tuple", [("k", K), ("v", V)]), ("null",)])
+            nm = self.fresh()
+            stmts.append(("let", nm, ("map", ("func", [k, v], body), src)))
+            return
         if kind == 0:      # rename every field
             e = ("map", ("func", [k, v], ("list", [("bin", "+", K, ("str", "x")), V])), src)
             T = ("tuple", tuple((n + "x", VT) for n in names))
